@@ -72,7 +72,15 @@ def _work(op):
 
 
 def _work_chunk(ops):
-    return [_work(op) for op in ops]
+    """Worker-process side: every op under its own watchdog (a hang in one schedule must not stall the pool)."""
+    from harness import framework
+    out = []
+    for op in ops:
+        try:
+            out.append(framework.with_timeout(lambda op=op: _work(op), CASE_TIMEOUT))
+        except framework.CaseTimeout:
+            out.append(("TIMEOUT", 0, 0))
+    return out
 
 
 def run_impl(case):
@@ -81,6 +89,9 @@ def run_impl(case):
     if res is None:
         res = _work(op)
     trace, nb, ninj = res
+    if trace == "TIMEOUT":
+        from harness import framework
+        raise framework.CaseTimeout()
     if op.split()[1] == "cm":
         return {"out": trace, "line": op, "expect": trace}
     if trace.startswith("EXC"):
